@@ -185,7 +185,8 @@ package decoder
 //@ func FormatInformation_NumBitsDiffering(a uint, b uint) (r int)
 //@   property C05
 //@   mode bv
-//@   ensures r == hamming(a, b, 64) && 0 <= r && r <= 64
+//@   ensures r == hamming(a, b, 64)
+//@   ensures 0 <= r && r <= 64
 //@   modifies nothing
 
 // ---------------------------------------------------------------- nearest-entry searches over the BCH tables (C05)
